@@ -119,6 +119,10 @@ def check_param_draw(G, reorder=None):
         expect_same(wild_keys(fz(new.fields['param_n_samples'][k])), wild_keys(fz(s2)), f"new.param_n_samples[{k}]")
         expect_same(new.fields['curr_param_idx'][k], i2, f"new.curr_param_idx[{k}]")
         expect_same(wild_keys(fz(batch[k])), wild_keys(Sym('dynamic_slice', fz(s2), (fz(i2), 0), (fz(K('bp')), 1))), f"batch[{k}]")
+        # same obligation as for the collocation generators (check_draw): a reshuffle must leave an advanced key behind
+        nk = new.fields['keys']
+        if not isinstance(nk, dict) or k not in nk or same(fz(nk[k]), fz(gen.fields['keys'][k])):
+            raise Violation(f"new.keys[{k}]", "the PRNG key is never advanced", "a new key after a reshuffle")
     if set(batch.keys()) != set(keys):
         raise Violation("batch keys", str(sorted(batch.keys())), str(sorted(keys)))
     for f, v in gen.fields.items():
@@ -165,6 +169,8 @@ def run(chk):
         pred, k2, s2, i2 = spec_step(gen.fields['key'], gen.fields['indices'], gen.fields['curr_idx'], K('bo'), K('n_obs'), None)
         expect_same(wild_keys(fz(new.fields['indices'])), wild_keys(fz(s2)), "new.indices")
         expect_same(new.fields['curr_idx'], i2, "new.curr_idx")
+        if same(fz(new.fields['key']), fz(gen.fields['key'])):
+            raise Violation("new.key", "the PRNG key is never advanced", "a new key after a reshuffle")
         for f, v in gen.fields.items():
             if f not in ('key', 'indices', 'curr_idx') and not same(new.fields.get(f), v):
                 raise Violation(f"field {f}", f"new.{f} = {new.fields.get(f)!r}", "unchanged")
